@@ -1,4 +1,4 @@
-\* quick: one file; every subset of <= 3 of the nine kinds and the full set; <= 2 I/O faults; error/fatal anywhere; exact phase order
+\* quick: one file; every subset of <= 2 of the nine kinds and the full set; <= 2 I/O faults; error/fatal anywhere; exact phase order
 SPECIFICATION Spec
 CONSTANTS
   MaxFiles = 1
@@ -8,7 +8,7 @@ CONSTANTS
   MultiPart = FALSE
   PostUsed = {}
   ChecksIo = TRUE
-  MaxKinds = 3
+  MaxKinds = 2
   CleanupKept = FALSE
   PhasesUsed = {"load", "include", "scan", "syscmd", "linear", "parse", "abnorm", "macex", "abcheck", "scobind", "tinfer", "genfoam", "optfoam", "putao", "putlisp", "putjava", "putc", "putobject"}
   KindsUsed = {"ai", "ap", "asy", "ao", "fm", "lsp", "c", "java", "main"}
